@@ -3,6 +3,7 @@ import Tahoe.Immutable.Sizes
 import Tahoe.Immutable.Layout
 import Tahoe.Immutable.Pipeline
 import Tahoe.Immutable.Examples
+import Tahoe.Immutable.Uploadable
 /-! Driver for C01 (immutable sizes, share layout, upload pipeline).
     `sizes SIZE K MAXSEG`            → `seg=S|Err;enc=…;dl=…`  (uploader segsize, encoder numbers, downloader numbers)
     `enc SIZE K SEGSIZE`             → encoder numbers `seg,nseg,share,tail,padded,block,tailblock` or the exception name
@@ -15,6 +16,8 @@ import Tahoe.Immutable.Examples
     `wseq V DATA BLOCK NSEG NSH UEB` → the writer's (offset+len) sequence and the contiguity verdict
     `shares K MAXSEG KSHEX PTHEX`    → data sections of shares 0..K-1 under a systematic code (block j = piece j),
                                        ciphertext = PT xor KS, joined by `,`; then `;` UEB numbers
+    `sharesvia K MAXSEG CHUNK KSHEX PTHEX SIZES` → like `shares`, but the plaintext reaches the encoder through an IUploadable whose
+                                       read() returns pieces of the cycling SIZES and through read_encrypted's CHUNK loop
     `updown K N MAXSEG KSHEX PTHEX PICKSEED` → downloads through the model with a systematic K-of-K.. code: `ok` / mismatch -/
 open Tahoe.Drv Tahoe.Immutable Tahoe.Immutable.Sizes Tahoe.Immutable.Layout Tahoe.Immutable.Pipeline
 
@@ -114,6 +117,16 @@ def handle : List String → String
         ",".intercalate (u.shares.map hexOfBytes) ++ ";" ++
           showNatList [u.ueb.size, u.ueb.segmentSize, u.ueb.numSegments, u.ueb.neededShares, u.ueb.codecSize, u.ueb.tailCodecSize]
     | _, _, _, _ => "bad-op"
+  | ["sharesvia", k, maxSeg, chunk, kshex, pthex, sizes] =>
+    match k.toNat?, maxSeg.toNat?, chunk.toNat?, bytesOfHex kshex, bytesOfHex pthex, parseNatList sizes with
+    | some k, some maxSeg, some chunk, some ksb, some pt, some sizes =>
+      let ksa := ksb.toArray
+      match Uploadable.uploadVia (fun _ => ksOfArray ksa ()) sysCodec (Uploadable.chunkySource pt sizes (fun _ => [])) k k maxSeg chunk with
+      | .error e => showErr e
+      | .ok u =>
+        ",".intercalate (u.shares.map hexOfBytes) ++ ";" ++
+          showNatList [u.ueb.size, u.ueb.segmentSize, u.ueb.numSegments, u.ueb.neededShares, u.ueb.codecSize, u.ueb.tailCodecSize]
+    | _, _, _, _, _, _ => "bad-op"
   | ["updown", k, maxSeg, kshex, pthex, seed] =>
     match k.toNat?, maxSeg.toNat?, bytesOfHex kshex, bytesOfHex pthex, seed.toNat? with
     | some k, some maxSeg, some ksb, some pt, some seed =>
